@@ -387,7 +387,34 @@ func (P *Program) Func(key string) *ssa.Function {
 			found = f
 		}
 	}
+	if found == nil {
+		// the method of an unexported type with the other kind of receiver (`func (w witness) M` for
+		// `func (w *witness) M`): the same method, as long as only one of the two forms exists
+		if alt := toggleReceiver(key); alt != "" {
+			if f, ok := P.Funcs[alt]; ok {
+				return f
+			}
+		}
+	}
 	return found
+}
+
+// toggleReceiver: "pkg.(*t).M" <-> "pkg.(t).M" for unexported receiver types; "" otherwise.
+func toggleReceiver(key string) string {
+	i := strings.Index(key, ".(")
+	j := strings.Index(key, ").")
+	if i < 0 || j < i {
+		return ""
+	}
+	recv := key[i+2 : j]
+	name := strings.TrimPrefix(recv, "*")
+	if name == "" || !(name[0] >= 'a' && name[0] <= 'z') {
+		return ""
+	}
+	if strings.HasPrefix(recv, "*") {
+		return key[:i+2] + name + key[j:]
+	}
+	return key[:i+2] + "*" + name + key[j:]
 }
 
 // uniqueUnexported: "pkg.name" of unexported functions and methods whose name occurs once in their package.
